@@ -333,16 +333,26 @@ def report(ctx, rs, results, where, floor):
 # ------------------------------------------------------------------------------------------------ M4
 def _cost_job(family):
     """Cost (interpreted steps) of one construction at nesting level k of the tower x' = op(x, x): with the
-    environment's memoising type checker it does not depend on k."""
+    environment's memoising type checker it does not depend on k - also when rejected constructions over the
+    same operands happen in between (the '+rejections' families)."""
     levels = (6, 30)
+    rejections = family.endswith("+rejections")
+    base = family.split("+")[0]
 
     def one(ex):
         it, w, env = _fresh(ex)
-        x = _build(w, env, ("Or", "a", "b") if family == "bool" else ("Plus", "x", "y"))
+        it.max_loop = 100000
+        x = _build(w, env, ("Or", "a", "b") if base == "bool" else ("Plus", "x", "y"))
         costs = {}
         for k in range(1, levels[1] + 1):
+            if rejections:
+                try:
+                    # ill-sorted over the current term: the failure is raised inside the type checker's walk
+                    w.app("Equals", x, x) if base == "bool" else w.app("BVULT", x, x)
+                except AbsRaise:
+                    pass
             s0 = it.steps
-            x = w.app("And" if family == "bool" else "Plus", x, x)
+            x = w.app("And" if base == "bool" else "Plus", x, x)
             costs[k] = it.steps - s0
         return costs
     try:
@@ -359,8 +369,8 @@ def _cost_job(family):
         if hi > 1.5 * lo + 20:
             out.append(("bad", "construction-cost|%s" % family,
                         "building op(x, x) over a term of nesting depth %d costs %d interpreted steps, over depth %d it "
-                        "costs %d: every construction re-types the sub-DAG of its operands (quadratic construction)"
-                        % (levels[0], lo, levels[1], hi)))
+                        "costs %d%s: every construction re-types the sub-DAG of its operands (quadratic construction)"
+                        % (levels[0], lo, levels[1], hi, " (a rejected construction precedes each step)" if rejections else "")))
         else:
             out.append(("ok", "tower %s" % family, "steps per construction at depth %d / %d: %d / %d" % (levels[0], levels[1], lo, hi)))
     return out
@@ -368,7 +378,7 @@ def _cost_job(family):
 
 def cost_results():
     out = []
-    for r in parallel_map(_cost_job, ["bool", "arith"]):
+    for r in parallel_map(_cost_job, ["bool", "arith", "bool+rejections", "arith+rejections"]):
         out.extend(r)
     return out
 
